@@ -17,12 +17,12 @@ def run(ctx):
     T = ctx.thorough
     # pure model-checking runs (no edge export), run beside the edge export / the Go build
     pure = [("BlockSync_X01strict.cfg", "ok", "intended behaviour (D1, D2 off), all three locks: (a)-(e) incl. (c)"),
-            ("BlockSync_X01bound.cfg", "ok", "MaxFlightBlk=3, unrestricted schedule: flight bound (b)"),
             ("BlockSync_X01live.cfg", "ok", "fair model (LiveSpec), N=2: liveness (f)"),
-            ("BlockSync_X01livex.cfg", "Temporal", "no fairness: (f) must fail (the property is not vacuous)"),
             ("BlockSync_X01devc.cfg", "UnsolicitedIgnored", "as coded: (c) must fail (that is what D1/D2 mean)")]
     if T:
-        pure += [("BlockSync_X01strictt.cfg", "ok", "intended behaviour, N=3"),
+        pure += [("BlockSync_X01bound.cfg", "ok", "MaxFlightBlk=3, unrestricted schedule: flight bound (b)"),
+                 ("BlockSync_X01livex.cfg", "Temporal", "no fairness: (f) must fail (the property is not vacuous)"),
+                 ("BlockSync_X01strictt.cfg", "ok", "intended behaviour, N=3"),
                  ("BlockSync_X01boundt.cfg", "ok", "flight bound, N=3"),
                  ("BlockSync_X01livet.cfg", "ok", "liveness, N=3")]
     w = max(2, bs.vf.NCPU // 4)
@@ -48,7 +48,7 @@ def run(ctx):
     # (cfg, world, (max paths, max steps)): quick replays the long in-layer walks + a seed-dependent sample of the
     # layer-crossing edges; thorough replays the complete edge cover of the N=2 model and a big sample of N=3
     procs = 8 if T else 4
-    runs = [("BlockSync_X01.cfg", "w2", (100000, 10 ** 9) if T else (90, 60000))]
+    runs = [("BlockSync_X01.cfg", "w2", (100000, 10 ** 9) if T else (60, 20000))]
     if T:
         runs.append(("BlockSync_X01t.cfg", "w3", (600, 300000)))
     npaths = nsteps = 0
@@ -56,12 +56,12 @@ def run(ctx):
     covers = {}
     binary = None
     for cfg, world, budget in runs:
-        mc = bs.model_check(ctx, cfg, workers=1, timeout=2400, required=[a for a in bs.ALL_ACTIONS if a != "NetDrop"])
+        mc = bs.model_check(ctx, cfg, workers=4, timeout=2400, required=[a for a in bs.ALL_ACTIONS if a != "NetDrop"])
         binary = binary or fbin.result()
         if not (mc and binary):
             continue
         _, edges, inits = mc
-        allp, ncov, nedges = bs.class_cover(edges, inits)
+        allp, ncov, nedges = bs.class_cover(edges, inits, max_len=2000)
         if ncov < nedges:
             ctx.infra("edge cover of %s incomplete: %d of %d" % (cfg, ncov, nedges))
         paths = bs.select_paths(ctx, allp, budget[0], budget[1])
@@ -104,7 +104,7 @@ def run(ctx):
         f.result()
     pool.shutdown()
     missing = [a for a in bs.ALL_ACTIONS if per_action.get(a, 0) == 0 and a != "NetDrop"]
-    if missing and binary:
+    if missing and binary and not ctx.violations:
         ctx.infra("replay never executed actions %s" % missing)
     ctx.finish("model_checking", {
         "states": ctx.stats["states"], "transitions": ctx.stats["transitions"],
